@@ -199,6 +199,16 @@ impl<'a> Evaluator<'a> {
                             }),
                         }
                     }
+                    (Some(SymbolData::Number(_)), Some(SymbolData::String(_)))
+                    | (Some(SymbolData::String(_)), Some(SymbolData::Number(_))) => {
+                        Err(EvaluationError {
+                            span: bin.op.span,
+                            message: format!(
+                                "cannot apply operation '{}' on a number and a string",
+                                bin.op.data
+                            ),
+                        })
+                    }
                     _ => Ok(None),
                 }
             }
@@ -228,6 +238,14 @@ impl<'a> Evaluator<'a> {
             }
             ExpressionFactor::IdentifierValue { path, modifier } => {
                 let symbol_data = self.lookup_symbol(path, track_usage);
+
+                if let Some(SymbolData::MacroDefinition(_)) = symbol_data {
+                    // (a statement that uses the name of a macro as a value would otherwise be dropped without a word)
+                    return self.error(
+                        path.span,
+                        format!("'{}' is a macro and has no value", &path.data),
+                    );
+                }
 
                 Ok(symbol_data.and_then(|data| match data {
                     SymbolData::MacroDefinition(_) => None,
